@@ -53,7 +53,7 @@ impl AsyncRead for ScriptSrc {
             s.errors += 1;
             s.pend_run = 0;
             if s.log.len() < 64 { s.log.push("error".into()) }
-            Poll::Ready(Err(io::Error::new(io::ErrorKind::ConnectionReset, "transient scripted error")))
+            Poll::Ready(Err(crate::sched::transient_error()))
         }
     }
 }
@@ -122,7 +122,7 @@ fn run_schedule(vals: &[Val], stream: &Rc<Vec<u8>>, complete: usize, on_boundary
                 if i != complete || !on_boundary { return Err(Fail::new("premature-end", format!("clean end reported after {} of {} frames (stream ends {} a frame); {}", i, complete, if on_boundary { "between" } else { "inside" }, describe(&st)))) }
                 break
             }
-            Ok(ReadOutcome::Err(Error::Io(e))) if e.kind() == io::ErrorKind::ConnectionReset => {
+            Ok(ReadOutcome::Err(Error::Io(e))) if crate::sched::is_transient(&e) => {
                 surfaced_errors += 1;
                 if surfaced_errors > st.borrow().errors { return Err(Fail::new("error-duplicated", format!("a transient error surfaced more often than it was injected; {}", describe(&st)))) }
                 continue // reading resumes where it left off
@@ -165,6 +165,8 @@ fn exhaustive(i: u64, st: &mut Stats, b: Bounds, cap: u64) -> CaseResult {
     let (vals, cut) = &streams[(i as usize / split_count()) % streams.len()];
     let fixed = split_prefix(i as usize % split_count());
     let (stream, complete, on_boundary) = prep(vals, *cut);
+    // the injected error's kind varies with the stream (UnexpectedEof is also what the reader itself reports at a torn end)
+    crate::sched::set_err_kind(crate::sched::ERR_KINDS[(i as usize / split_count()) % 3]);
     let mut nontrivial = 0u64;
     let (count, done) = dfs(&fixed, cap, |ch| {
         let info = run_schedule(vals, &stream, complete, on_boundary, ch, b)?;
@@ -193,7 +195,10 @@ fn random_walk(g: &mut Gen, st: &mut Stats) -> CaseResult {
     let b = Bounds { pending_run: 1 + g.below(4), pending_total: usize::MAX, errors: g.below(4), drops: g.below(12), small: false };
     let ch: Shared = Rc::new(RefCell::new(TapeChooser::draw(g, 400)));
     let ctor = crate::sched::draw_prebuf(g);
+    let kind = *g.pick(&crate::sched::ERR_KINDS);
+    crate::sched::set_err_kind(kind);
     let info = run_schedule(&vals, &stream, complete, on_boundary, ch, b)?;
+    if info.errors > 0 { st.class(&format!("walk/transient error of kind {:?}", kind)) }
     st.class(&format!("walk/AsyncReader::{}", ctor));
     if info.drops_mid_frame > 0 { st.nontrivial(hash_of(&(&stream[.. stream.len().min(48)], stream.len(), info.polls, info.pendings, info.drops_mid_frame))) }
     st.class(if info.drops_mid_frame > 0 { "walk/drop-mid-frame" } else if info.pendings > 0 { "walk/pendings-only" } else { "walk/straight" });
